@@ -1137,6 +1137,28 @@ class MempoolFamily(SubsFamily):
             k['stall_boost'] = (rng.choice(['lookup_utxos', 'lookup_hashXs', 'lookup_utxos', 'deserialize_txs']),
                                 rng.choice([0.4, 0.8]), 'MemPool', rng.choice(['release', 'release', 'timed']))
             k['stall_p'] = 0.0
+        if races and rng.random() < 0.3:
+            # the tracker's periodic statistics task runs every second or so instead of every minute, and worker
+            # threads are pre-empted between source lines: whatever it shares with the refresher is exposed
+            k['log_status_secs'] = rng.choice([0.3, 1.0, 3.0])
+            k['line_p'] = rng.choice([0.05, 0.2])
+            k['line_stall_p'] = rng.choice([0.05, 0.2])
+            k['stall_max'] = rng.choice([0.5, 3.0, 8.0])
+            k['preempt'] = True
+            if rng.random() < 0.6:
+                # ... with a large mempool that keeps changing a little every second or so
+                plan.append(dict(op='mp_add', n=rng.choice([60, 120, 230]), chain=rng.choice([0.0, 0.3]),
+                                 seed=rng.getrandbits(32)))
+                plan.append(dict(op='wait', dt=rng.choice([6.0, 12.0])))
+                t = 0.0
+                for _ in range(rng.randint(8, 25)):
+                    t += rng.uniform(0.3, 2.5)
+                    if rng.random() < 0.6:
+                        plan.append(dict(op='mp_add', n=rng.randint(1, 3), chain=0.3, at=round(t, 2),
+                                         seed=rng.getrandbits(32)))
+                    else:
+                        plan.append(dict(op='mp_evict', k=rng.randrange(200), at=round(t, 2)))
+                plan.append(dict(op='wait', dt=round(t + 10.0, 1)))
         for _ in range(rng.randint(2, 5)):
             at_max = rng.choice([0.0, 3.0, 12.0]) if races else 0.0
             for _ in range(rng.randint(1, 4)):
